@@ -230,7 +230,12 @@ def run_case(case) -> Outcome:
         for i, o in enumerate(offs):
             a = r2s(o, driver.rom_type(mode))
             lines.append(f"{'*=' if i % 3 else '@=0x7e0000' + chr(10) + '*='}0x{a:06x}\n.db 0x{i & 0xFF:02x}, 0x{(o >> 8) & 0xFF:02x}\n")
-            want.append((o, bytes([i & 0xFF, (o >> 8) & 0xFF])))
+            data = bytes([i & 0xFF, (o >> 8) & 0xFF])
+            if i % 4 == 1:
+                # the code that follows runs somewhere else in ROM (@=): it is still stored right behind what was written
+                lines.append(f"@=0x{r2s(offs[(i * 7) % len(offs)], driver.rom_type(mode)):06x}\n.db 0x77\n")
+                data += b"\x77"
+            want.append((o, data))
         res = driver.assemble_mem("".join(lines), rom=mode)
         sub = {"t": "via-assembly", "mode": mode, "seed": case["seed"]}
         if not res.accepted:
